@@ -13,6 +13,7 @@ import (
 	"math/bits"
 	"strconv"
 	"strings"
+	"sync"
 )
 
 type SortKind uint8
@@ -372,8 +373,113 @@ func tEq(a, b *Term) *Term {
 	if a.S.K == SFP {
 		return mkApp("fp.eq", sortBool, a, b)
 	}
-	// cheap syntactic checks on strings: different constant lengths etc. are left to the solver
+	if a.S.K == SInt {
+		if r := linCmp("=", a, b); r >= 0 {
+			return mkBool(r == 1)
+		}
+	}
+	if a.S.K == SStr {
+		if strSyntacticallyDistinct(a, b) {
+			return termFalse
+		}
+		// (ite c x y) = z  ==>  (ite c (x = z) (y = z)) when one arm is decided syntactically
+		for _, pr := range [][2]*Term{{a, b}, {b, a}} {
+			if x, z := pr[0], pr[1]; x.Op == "ite" {
+				e1, e2 := tEq(x.Args[1], z), tEq(x.Args[2], z)
+				if e1.IsConst() || e2.IsConst() {
+					return tIte(x.Args[0], e1, e2)
+				}
+			}
+		}
+	}
 	return mkApp("=", sortBool, a, b)
+}
+
+// ---- syntactic string facts (sound: only constant prefixes/suffixes, minimal lengths and declared alphabets are used)
+
+// varAlphabet records, per input variable, the alphabet its value was constrained to on creation (vp.StringIn).
+var varAlphabet sync.Map // name -> string
+
+func strParts(t *Term) []*Term {
+	if t.Op == "str.++" {
+		return t.Args
+	}
+	return []*Term{t}
+}
+
+// strShape returns the constant prefix, constant suffix and minimal length of a string term.
+func strShape(t *Term) (prefix, suffix string, minLen int, isConst bool) {
+	if t.IsConst() {
+		return t.Str, t.Str, len(t.Str), true
+	}
+	ps := strParts(t)
+	if ps[0].IsConst() {
+		prefix = ps[0].Str
+	}
+	if n := len(ps); ps[n-1].IsConst() {
+		suffix = ps[n-1].Str
+	}
+	for _, x := range ps {
+		if x.IsConst() {
+			minLen += len(x.Str)
+		}
+	}
+	return prefix, suffix, minLen, false
+}
+
+func strSyntacticallyDistinct(a, b *Term) bool {
+	pa, sa, la, ca := strShape(a)
+	pb, sb, lb, cb := strShape(b)
+	if ca && lb > len(a.Str) || cb && la > len(b.Str) {
+		return true
+	}
+	if !strings.HasPrefix(pa, pb) && !strings.HasPrefix(pb, pa) {
+		return true
+	}
+	if !strings.HasSuffix(sa, sb) && !strings.HasSuffix(sb, sa) {
+		return true
+	}
+	// a character that occurs in a constant but cannot occur anywhere in the other side
+	if ca && !cb {
+		return strHasForeignChar(a.Str, b)
+	}
+	if cb && !ca {
+		return strHasForeignChar(b.Str, a)
+	}
+	return false
+}
+
+// strMayContainChar reports whether string term t can contain byte c (false only when provably not).
+func strMayContainChar(t *Term, c byte) bool {
+	for _, x := range strParts(t) {
+		switch {
+		case x.IsConst():
+			if strings.IndexByte(x.Str, c) >= 0 {
+				return true
+			}
+		case x.Op == "var":
+			al, ok := varAlphabet.Load(x.Name)
+			if !ok || strings.IndexByte(al.(string), c) >= 0 {
+				return true
+			}
+		default:
+			return true
+		}
+	}
+	return false
+}
+
+func strHasForeignChar(c string, t *Term) bool {
+	seen := [256]bool{}
+	for i := 0; i < len(c); i++ {
+		if !seen[c[i]] {
+			seen[c[i]] = true
+			if !strMayContainChar(t, c[i]) {
+				return true
+			}
+		}
+	}
+	return false
 }
 
 // ---------------------------------------------------------------- bit-vectors
@@ -605,7 +711,134 @@ func intCmp(op string, a, b *Term) *Term {
 			return mkBool(a.I >= b.I)
 		}
 	}
+	if r := linCmp(op, a, b); r >= 0 {
+		return mkBool(r == 1)
+	}
 	return mkApp(op, sortBool, a, b)
+}
+
+
+// ---- linear forms over Int terms (constant + sum of coefficient*atom), used for syntactic simplification only
+
+type linForm struct {
+	c     int64
+	coef  map[string]int64
+	atoms map[string]*Term
+}
+
+func (l *linForm) add(t *Term, k int64) {
+	switch {
+	case t.IsConst():
+		l.c += k * t.I
+	case t.Op == "+" && len(t.Args) == 2:
+		l.add(t.Args[0], k)
+		l.add(t.Args[1], k)
+	case t.Op == "-" && len(t.Args) == 2:
+		l.add(t.Args[0], k)
+		l.add(t.Args[1], -k)
+	case t.Op == "-" && len(t.Args) == 1:
+		l.add(t.Args[0], -k)
+	default:
+		key := t.String()
+		l.coef[key] += k
+		l.atoms[key] = t
+		if l.coef[key] == 0 {
+			delete(l.coef, key)
+			delete(l.atoms, key)
+		}
+	}
+}
+
+// linDiff returns the linear form of a-b.
+func linDiff(a, b *Term) *linForm {
+	l := &linForm{coef: map[string]int64{}, atoms: map[string]*Term{}}
+	if a.size+b.size > 400 {
+		// too large to be worth normalising: one opaque atom each
+		l.coef["#a"], l.atoms["#a"] = 1, a
+		l.coef["#b"], l.atoms["#b"] = -1, b
+		return l
+	}
+	l.add(a, 1)
+	l.add(b, -1)
+	return l
+}
+
+// sign information: every atom that is a string length is >= 0
+func (l *linForm) bounds() (allNonNeg, allNonPos bool) {
+	allNonNeg, allNonPos = true, true
+	for k, c := range l.coef {
+		if l.atoms[k].Op != "str.len" {
+			return false, false
+		}
+		if c < 0 {
+			allNonNeg = false
+		}
+		if c > 0 {
+			allNonPos = false
+		}
+	}
+	return
+}
+
+// linCmp decides "a op b" syntactically: 1 true, 0 false, -1 unknown.
+func linCmp(op string, a, b *Term) int {
+	l := linDiff(a, b)
+	nn, np := l.bounds() // diff >= c when nn, diff <= c when np
+	t := func(b bool) int {
+		if b {
+			return 1
+		}
+		return 0
+	}
+	if len(l.coef) == 0 {
+		switch op {
+		case "<":
+			return t(l.c < 0)
+		case "<=":
+			return t(l.c <= 0)
+		case ">":
+			return t(l.c > 0)
+		case ">=":
+			return t(l.c >= 0)
+		case "=":
+			return t(l.c == 0)
+		}
+	}
+	switch op {
+	case ">=":
+		if nn && l.c >= 0 {
+			return 1
+		}
+		if np && l.c < 0 {
+			return 0
+		}
+	case ">":
+		if nn && l.c > 0 {
+			return 1
+		}
+		if np && l.c <= 0 {
+			return 0
+		}
+	case "<":
+		if np && l.c < 0 {
+			return 1
+		}
+		if nn && l.c >= 0 {
+			return 0
+		}
+	case "<=":
+		if np && l.c <= 0 {
+			return 1
+		}
+		if nn && l.c > 0 {
+			return 0
+		}
+	case "=":
+		if nn && l.c > 0 || np && l.c < 0 {
+			return 0
+		}
+	}
+	return -1
 }
 
 // Go's truncated division on mathematical integers, expressed with SMT's floored div/mod.
@@ -729,6 +962,11 @@ func strSubstr(s, off, n *Term) *Term {
 	if off.IsConst() && off.I == 0 && n == strLen(s) {
 		return s
 	}
+	if s.Op == "str.++" && !(off.IsConst() && n.IsConst()) {
+		if r := substrOfConcat(s, off, n); r != nil {
+			return r
+		}
+	}
 	if s.IsConst() && off.IsConst() && n.IsConst() {
 		o, l := off.I, n.I
 		if o < 0 || o >= int64(len(s.Str)) || l <= 0 {
@@ -740,6 +978,57 @@ func strSubstr(s, off, n *Term) *Term {
 		return mkStr(s.Str[o : o+l])
 	}
 	return mkApp("str.substr", sortStr, s, off, n)
+}
+
+// substrOfConcat resolves s[off:off+n] when both cut points fall, syntactically, on a part boundary of the
+// concatenation or at a constant distance inside a constant part. nil when it cannot be resolved.
+func substrOfConcat(s, off, n *Term) *Term {
+	parts := s.Args
+	end := intAdd(off, n)
+	cut := func(pos *Term) (idx int, d int64, ok bool) {
+		// position = len(parts[:idx]) + d with 0 <= d <= len(parts[idx]) (d > 0 only inside a constant part)
+		cum := mkInt(0)
+		for i := 0; i <= len(parts); i++ {
+			l := linDiff(pos, cum)
+			if len(l.coef) == 0 && l.c >= 0 {
+				if l.c == 0 {
+					return i, 0, true
+				}
+				if i < len(parts) && parts[i].IsConst() && l.c <= int64(len(parts[i].Str)) {
+					return i, l.c, true
+				}
+			}
+			if i < len(parts) {
+				cum = intAdd(cum, strLen(parts[i]))
+			}
+		}
+		return 0, 0, false
+	}
+	i, d, ok1 := cut(off)
+	j, e, ok2 := cut(end)
+	if !ok1 || !ok2 {
+		return nil
+	}
+	if j < i || j == i && e < d {
+		return nil
+	}
+	var out []*Term
+	if i == j {
+		if d == e {
+			return mkStr("")
+		}
+		return mkStr(parts[i].Str[d:e])
+	}
+	if d > 0 {
+		out = append(out, mkStr(parts[i].Str[d:]))
+	} else {
+		out = append(out, parts[i])
+	}
+	out = append(out, parts[i+1:j]...)
+	if e > 0 {
+		out = append(out, mkStr(parts[j].Str[:e]))
+	}
+	return strConcat(out...)
 }
 
 func strPrefixOf(p, s *Term) *Term {
@@ -776,6 +1065,13 @@ func strContains(s, sub *Term) *Term {
 	if sub.IsConst() && sub.Str == "" {
 		return termTrue
 	}
+	if sub.IsConst() {
+		for i := 0; i < len(sub.Str); i++ {
+			if !strMayContainChar(s, sub.Str[i]) {
+				return termFalse
+			}
+		}
+	}
 	return mkApp("str.contains", sortBool, s, sub)
 }
 func strIndexOf(s, sub, from *Term) *Term {
@@ -789,6 +1085,28 @@ func strIndexOf(s, sub, from *Term) *Term {
 			return mkInt(-1)
 		}
 		return mkInt(int64(i) + f)
+	}
+	if sub.IsConst() && sub.Str != "" && from.IsConst() && from.I == 0 && s.Op == "str.++" {
+		// skip leading parts that cannot contain the first byte of sub; then sub must occur inside the next constant part
+		// early enough that no occurrence straddling into later parts can come first
+		off := mkInt(0)
+		for _, x := range s.Args {
+			if !x.IsConst() {
+				if strMayContainChar(x, sub.Str[0]) {
+					break
+				}
+				off = intAdd(off, strLen(x))
+				continue
+			}
+			i := strings.Index(x.Str, sub.Str)
+			if i >= 0 && i <= len(x.Str)-len(sub.Str) {
+				return intAdd(off, mkInt(int64(i)))
+			}
+			if strings.IndexByte(x.Str, sub.Str[0]) >= 0 {
+				break
+			}
+			off = intAdd(off, mkInt(int64(len(x.Str))))
+		}
 	}
 	return mkApp("str.indexof", sortInt, s, sub, from)
 }
